@@ -229,6 +229,59 @@ def size_programs(cases):
     return programs, expected, keys
 
 
+def wasm_sizes(rep, cases, selftest):
+    """`|:T|` under `--wasm` (pointers and usize are 4 bytes wide): the same structures, measured in a function, through a
+    constant and as `|:[3]T|`, compiled by the real `penne emit --wasm`; the folded values are read off the IR
+    (`ret i32 N`) and compared with MC_Layout's wsize (Layout.tla SizeOfT with pw = 4).  (Ninth round of seeded changes:
+    the size used a layout cached for the native target.)"""
+    import re
+    import shutil
+    import subprocess
+    from . import pipeline_common as pc
+    penne = pc.build_penne()
+    root = os.path.join(common.WORK, "c10-wasm-%d" % os.getpid())
+    bad = n = 0
+    noticed = False
+    for start in range(0, len(cases), PACK):
+        chunk = cases[start:start + PACK]
+        decls, fns = [PRELUDE_TYPES], []
+        for k, c in enumerate(chunk):
+            members = "".join("m%d: %s,\n" % (i, t) for i, t in enumerate(c["ms"]))
+            decls.append("struct S%d\n{\n%s}" % (k, members))
+            decls.append("const Z%d: usize = |:S%d|;" % (k, k))
+            fns.append("pub fn size_%d() -> usize\n{\nreturn: |:S%d|\n}\npub fn csize_%d() -> usize\n{\nreturn: Z%d\n}\n"
+                       "pub fn asize_%d() -> usize\n{\nreturn: |:[3]S%d|\n}" % (k, k, k, k, k, k))
+        shutil.rmtree(root, ignore_errors=True)
+        os.makedirs(root)
+        with open(os.path.join(root, "sizes.pn"), "w") as f:
+            f.write("\n".join(decls + fns) + "\n")
+        p = subprocess.run([penne, "emit", "--wasm", "--out-dir", "out", "--color", "never", "sizes.pn"], cwd=root, stdout=subprocess.PIPE,
+                           stderr=subprocess.PIPE, timeout=300, env=common.env_with_tools({"RUST_BACKTRACE": "0"}))
+        ir = ""
+        if p.returncode == 0:
+            ir = open(os.path.join(root, "out", "sizes.pn.ll")).read()
+        got = {m.group(1): int(m.group(2)) for m in re.finditer(r'define [^@]*@"?([ac]?size_\d+)"?\(\)[^{]*\{[^}]*?ret i32 (\d+)', ir)}
+        for k, c in enumerate(chunk):
+            alts = sorted(set([c["wsize"], c["wsize2"]]))
+            for label, name, mult in (("sizeof", "size_%d" % k, 1), ("const-sizeof", "csize_%d" % k, 1), ("sizeof-array-of-3", "asize_%d" % k, 3)):
+                n += 1
+                obs = got.get(name)
+                ok = obs is not None and obs in [mult * x for x in alts]
+                if ok and selftest and not noticed:
+                    noticed = obs not in [mult * x + 1 for x in alts]
+                if not ok:
+                    bad += 1
+                    rep.violation("wasm-size", "wasm %s {%s}" % (label, ", ".join(c["ms"])),
+                                  {"case": c, "observed": obs, "rc": p.returncode, "stderr": p.stderr.decode("utf-8", "replace")[-600:],
+                                   "message": "`penne emit --wasm`: %s of struct {%s} is %s, the layout rule for 4-byte pointers and usize gives %s" %
+                                              (label, ", ".join(c["ms"]), obs, " or ".join(str(mult * x) for x in alts))})
+    shutil.rmtree(root, ignore_errors=True)
+    if selftest and not noticed:
+        raise common.ToolError("C10 wasm sizes: no comparison succeeded (self-test)")
+    log("[wasm] %d structures x 3 measurements through `penne emit --wasm`, read off the IR: %d comparisons, %d violations" % (len(cases), n, bad))
+    return n
+
+
 HUGE_LABELS = ["sizeof", "const-sizeof", "sizeof-array-of-3"]
 
 
@@ -351,6 +404,7 @@ def run(rep, tier, seed, selftest):
     sprogs, sexp, skeys = size_programs(sizes)
     sres = run_sources(sprogs, "C10-size")
     n3 = compare(rep, "size", sprogs, sres, sexp, skeys, SIZE_LABELS)
+    n_wasm = wasm_sizes(rep, sizes, True)
     hprogs, hexp, hkeys = huge_programs(huges)
     hres = run_sources(hprogs, "C10-huge")
     n4 = compare(rep, "huge", hprogs, hres, hexp, hkeys, HUGE_LABELS)
